@@ -27,3 +27,64 @@ def paybackFixed (cum : List Rat) : Rat :=
   ((List.range cum.length).drop 1).foldl (paybackStep cum (fun i => cum.getD (i - 1) 0)) 0
 
 end GeoVerif
+
+namespace GeoVerif
+
+/-- which products an end-use sells (cash-flow view): electricity, heat, cooling -/
+inductive Sells | elec | heat | cool | both
+  deriving DecidableEq, Repr
+
+structure CashIn where
+  cy : Nat                 -- construction years
+  L : Nat                  -- plant lifetime
+  sells : Sells
+  net : List Rat           -- net kWh / year
+  heat : List Rat          -- heat kWh / year
+  cool : List Rat          -- cooling kWh / year
+  pe : List Rat            -- electricity price per operating year ($/kWh)
+  ph : List Rat
+  pc : List Rat
+  pcarbon : List Rat       -- carbon price per operating year ($/lb)
+  carbonOn : Bool
+  grid : Rat               -- grid CO2 intensity lb/kWh
+  ngi : Rat                -- natural-gas CO2 intensity lb/kWh
+  ccap : Rat
+  coam : Rat
+
+/-- `CalculateRevenue`, operating year `i` (MUSD) -/
+def yearRevenue (E P : List Rat) (i : Nat) : Rat := E.getD i 0 * P.getD i 0 / 1000000
+
+/-- energy revenue of operating year `i` for the products the end-use sells -/
+def productRevenue (s : CashIn) (i : Nat) : Rat :=
+  match s.sells with
+  | .elec => yearRevenue s.net s.pe i
+  | .heat => yearRevenue s.heat s.ph i
+  | .cool => yearRevenue s.cool s.pc i
+  | .both => yearRevenue s.net s.pe i + yearRevenue s.heat s.ph i
+
+/-- `CalculateCarbonRevenue`, operating year `i` (MUSD): avoided CO2 × carbon price -/
+def carbonRevenue (s : CashIn) (i : Nat) : Rat :=
+  let e := match s.sells with | .elec => s.net.getD i 0 | .both => s.net.getD i 0 | _ => 0
+  let h := match s.sells with | .elec => 0 | _ => s.heat.getD i 0
+  (e * s.grid + h * s.ngi) * s.pcarbon.getD i 0 / 1000000
+
+def operatingCash (s : CashIn) (i : Nat) : Rat :=
+  productRevenue s i + (if s.carbonOn then carbonRevenue s i else 0) - s.coam
+
+/-- the project cash-flow series: equal CAPEX shares in the construction years, then revenue − O&M -/
+def assemble (s : CashIn) : List Rat :=
+  List.replicate s.cy (-1 * (s.ccap / (s.cy : Rat))) ++ (List.range s.L).map (operatingCash s)
+
+/-- `numpy_financial.npv(rate, values)` = Σ values[t] / (1+rate)^t -/
+def npvFrom (r : Rat) : Nat → List Rat → Rat
+  | _, [] => 0
+  | t, x :: xs => x / (1 + r) ^ t + npvFrom r (t + 1) xs
+
+/-- `calculate_npv`: optionally Excel-style (a zero prepended, i.e. every flow discounted one more year) -/
+def npv (r : Rat) (cf : List Rat) (discountInitialYear : Bool) : Rat :=
+  if discountInitialYear then npvFrom r 0 (0 :: cf) else npvFrom r 0 cf
+
+def vir (npvValue ccap : Rat) : Rat := 1 + npvValue / ccap
+def moic (cum : List Rat) (ccap coam : Rat) (L : Nat) : Rat := cum.getLastD 0 / (ccap + coam * (L : Rat))
+
+end GeoVerif
